@@ -172,6 +172,28 @@ Definition fn_events (x : fn_counts) : Z :=
 Definition liveness_event_bound (pf : list fn_counts) : Z :=
   fold_left (fun events x => sat_add events (fn_events x)) pf 0.
 
+(* The Rust operations the two definitions above stand for, in the textual order of the source
+   (integer types: return type, casts, `T::from`, typed literals; then the arithmetic
+   operations).  LimitsProofs ties these lists to the ones the translator reads from limits.rs,
+   so a bound computed in another width or with unchecked operators no longer re-checks. *)
+Definition summary_bound_types_modelled : list string := ["u64"; "u64"; "u64"]%string.
+Definition summary_bound_ops_modelled : list string :=
+  ["saturating_mul"; "saturating_add"; "saturating_mul"; "+"]%string.
+Definition liveness_bound_types_modelled : list string :=
+  ["u64"; "u64"; "u32"; "u64"; "u64"; "u64"]%string.
+Definition liveness_bound_ops_modelled : list string :=
+  ["-"; "saturating_mul"; "saturating_add"; "saturating_add"; "saturating_mul"]%string.
+
+(* Runtime::run_with_analysis as modelled: the binding facts and the plan option are installed
+   unconditionally (no branch on the plan), the program runs, both are cleared. *)
+Definition run_with_analysis_modelled : list string :=
+  ["self.facts = Some(NonNull::from(facts))";
+   "self.optimization_plan = optimization_plan.map(NonNull::from)";
+   "self.run_inner(root)";
+   "self.facts = None";
+   "self.optimization_plan = None";
+   "&self.errors"]%string.
+
 (* the same two bounds in unbounded arithmetic *)
 Definition summary_exact (fcount lcount : Z) : Z := fcount * (fcount + (lcount * 2 + 2)).
 Definition fn_events_exact (x : fn_counts) : Z := (fc_blocks x * 2 + fc_ops x) * fc_locals x.
